@@ -75,23 +75,38 @@ def load_known():
     return json.load(open(p)).get("findings", [])
 
 
+def prepare(prog):
+    """normalisations applied to the program model before any rule runs: (1) helpers of the reviewed snapshot that were merely renamed
+    are found again by their content, (2) functions that did not exist on the reviewed tree (extracted helpers) are spliced into their
+    callers.  Returns notes for the evidence file."""
+    from rules import snapshot
+    from . import inline
+    notes = []
+    renamed = snapshot.apply_renames(prog)
+    if renamed:
+        notes.append("renamed helpers resolved by content: %s" % renamed)
+    inl = inline.inline_new_functions(prog)
+    if inl:
+        notes.append("functions not on the reviewed tree, spliced into their callers: %s" % inl)
+    return notes
+
+
 def _eval_config(job):
     """evaluate one property's rules on one feature configuration (separate process in the thorough tier)"""
     pid, tier, cfg, d, meta = job
     mod = importlib.import_module("rules." + pid)
     raw = facts.load_raw(d)
     prog = model.Program(raw)
+    prep = prepare(prog)
     am = anchor.AnchorModel(prog, raw)
     ctx = Ctx(pid, tier, prog, am, raw, meta, cfg)
-    from rules import snapshot
-    renamed = snapshot.apply_renames(prog)
-    if renamed:
-        ctx.notes.append("renamed helpers resolved by content: %s" % renamed)
+    ctx.notes.extend(prep)
     try:
         try:
             mod.run(ctx)
         finally:
             # (S) reviewed snapshot of the small shared helpers this property relies on (rules/snapshot.py)
+            from rules import snapshot
             try:
                 snapshot.check_snapshot(ctx, pid)
             except AnchorMissing:
